@@ -103,7 +103,7 @@ func (e *Engine) newVC(name, prop string) (*FuncVC, error) {
 	ct := e.spec.Contracts[name]
 	vc := &FuncVC{eng: e, w: newWorld(e.pkg.Types), fn: fn, name: name, contract: ct, prop: prop,
 		heapInits: map[string]string{}, heapSorts: map[string]string{}, glue: map[string][]glueCand{}, glueInit: map[string]bool{},
-		loopInfos: map[*ssa.Function]*loopInfo{}, assumed: map[string]bool{}, trusted: map[string]bool{}, maxPaths: 20000, compose: stage}
+		loopInfos: map[*ssa.Function]*loopInfo{}, assumed: map[string]bool{}, trusted: map[string]bool{}, lemmaClauses: map[string][]string{}, maxPaths: 20000, compose: stage}
 	return vc, nil
 }
 
@@ -260,6 +260,10 @@ func (vc *FuncVC) finish(st *State, fr *Frame, res []any) {
 	panicPath := res == nil && ct.MayPanic && st.ghost["panicked"].T == "true"
 	for _, c := range ct.Ensures {
 		if !vc.inProp(c.Tags) {
+			continue
+		}
+		if c.Lemma != "" {
+			vc.lemmaClauses[c.Lemma] = append(vc.lemmaClauses[c.Lemma], c.Src)
 			continue
 		}
 		if panicPath {
